@@ -14,7 +14,7 @@ def impl_bound(n):
 
 
 WALL_SECONDS = 30          # one decoder call: far beyond anything a linear decoder needs on inputs of a few hundred KiB
-WATCHDOG_SECONDS = 600     # between two recorded events of a driver
+WATCHDOG_SECONDS = 150     # between two recorded events of a driver
 
 
 def _on_alarm(signum, frame):
@@ -31,6 +31,22 @@ def arm(seconds):
         signal.signal(signal.SIGALRM, _on_alarm)
     signal.setitimer(signal.ITIMER_REAL, seconds)
     return True
+
+
+class wall:
+    """with wall(): <library calls> -- BudgetExceeded is raised inside the block when it does not return in WALL_SECONDS"""
+
+    def __enter__(self):
+        self.armed = arm(WALL_SECONDS)
+        return self
+
+    def __exit__(self, *a):
+        if self.armed:
+            arm(WATCHDOG_SECONDS)
+        return False
+
+
+HANG = {'r': 'exc', 'type': 'DidNotReturn', 'lib': False, 'site': 'wall-clock guard'}
 
 
 class StepCounter:
